@@ -187,7 +187,7 @@ fn instantiate(row: &Row, ca: &str, with_opt: bool) -> Vec<String> {
                         "rows_limit" => "10".into(),
                         "offset" => "0".into(),
                         "after" => "0".into(),
-                        "before" => "9999999999".into(),
+                        "before" => "99999999999999".into(), // milliseconds: far in the future, so that the time window holds every command
                         "seconds" => "10".into(),
                         _ => "1".into(),
                     })
